@@ -91,7 +91,87 @@ def run_fit(mk, noisy, seg, mode, cp0, k, recorded=None, fixed=()):
     return idnt, passes, exc
 
 
+CP_FAR = 1.2e-5      # tip position not shifted to the contact point
+
+
+def guessed_case(case):
+    """no initial parameters are given: the library estimates the contact
+    point from the data - in measured units, whatever k is"""
+    from nanite import model as nmodel
+    out = []
+    mk, seg, k = case["model"], case["segment"], case["k"]
+
+    def viol(clause, wit, detail):
+        out.append(V(PROP, clause, site="guessed", witness=wit,
+                     detail=detail, case=case, kind="grid"))
+    E = {"hertz_para": 3000.0, "hertz_cone": 9000.0,
+         "hertz_pyr3s": 40000.0}[mk]
+    res = {}
+    for kk in (1.0, k):
+        tr = synth.truth_params(mk, E=E, contact_point=CP_FAR,
+                                baseline=4e-11)
+        idnt = synth.make_curve(mk, tr, n_app=160, n_ret=140, x_start=1.0e-6,
+                                depth=DEPTH, noise=0.0, seed=5)
+        ops.install_counters()
+        ops.Counters.passes = []
+        exc = None
+        try:
+            if case["entry"] == "fit_model":
+                idnt.fit_model(model_key=mk, segment=seg, gcf_k=kk,
+                               weight_cp=0)
+                guess = idnt.fit_properties["params_initial"][
+                    "contact_point"].value
+            else:
+                idnt.fit_properties["gcf_k"] = kk
+                idnt.fit_properties["segment"] = seg
+                guess = idnt.get_initial_fit_parameters(
+                    model_key=mk)["contact_point"].value
+        except BaseException as e:
+            if isinstance(e, (KeyboardInterrupt, SystemExit, MemoryError)):
+                raise
+            exc, guess = e, None
+        passes, ops.Counters.passes = ops.Counters.passes, None
+        res[kk] = (idnt, guess, passes, exc)
+    (i1, g1, p1, e1), (ik, gk, pk, ek) = res[1.0], res[k]
+    if (e1 is None) != (ek is None):
+        viol("k-invariance", f"k={k:.3g}:raises", f"k=1: {e1!r}, k={k}: "
+             f"{ek!r}")
+        return out, ("raises-differ",)
+    if e1 is not None:
+        return out, ("raises", type(e1).__name__)
+    if gk != g1:
+        viol("k-initial-cp", f"k={k:.3g}:guess", "the estimated initial "
+             f"contact point is {gk!r} for k = {k}, {g1!r} for k = 1 (the "
+             "estimate is made on the measured data, which do not depend "
+             "on k)")
+    for n, ps in enumerate(pk):
+        if ps["cp0"] is None or not abs(ps["cp0"] - k * g1) <= \
+                4 * np.spacing(abs(k * g1)):
+            viol("k-initial-cp", f"k={k:.3g}:pass{n + 1}",
+                 f"pass {n + 1} starts from contact point {ps['cp0']!r}, "
+                 f"expected k x measured-units estimate = {k * g1!r}")
+            break
+    if case["entry"] != "fit_model":
+        return out, ("guess-only",)
+    f1, fk = i1.fit_properties, ik.fit_properties
+    if f1.get("success") and not fk.get("success"):
+        viol("k-invariance", f"k={k:.3g}:success", "fit with an estimated "
+             "start succeeds for k = 1 only")
+    elif f1.get("success") and case["compare"]:
+        dcp = abs(fk["params_fitted"]["contact_point"].value
+                  - f1["params_fitted"]["contact_point"].value) / DEPTH
+        rE = fk["params_fitted"]["E"].value / (
+            f1["params_fitted"]["E"].value * k ** (-POWER[mk]))
+        if not dcp <= 1e-6 or not abs(rE - 1) <= 1e-5:
+            viol("k-invariance", f"k={k:.3g}:guessed-start", "fit from the "
+                 f"estimated start: |d cp|/depth = {dcp:.2e}, "
+                 f"E_k / (E_1 k^-p) = {rE!r}")
+    return out, ("guessed", bool(f1.get("success")), bool(fk.get("success")))
+
+
 def case_fn(case):
+    if case.get("mode") == "guessed":
+        return guessed_case(case)
     out = []
     mk, noisy, seg = case["model"], case["noisy"], case["segment"]
     mode, cp0, k = case["mode"], case["cp0"], case["k"]
@@ -124,14 +204,14 @@ def case_fn(case):
     # exact, independent of optimiser tolerance: every pass starts from
     # k x the stored initial contact point, on k x the measured abscissa
     for n, ps in enumerate(pk):
-        if ps["cp0"] is None or abs(ps["cp0"] - k * cp0) > \
+        if ps["cp0"] is None or not abs(ps["cp0"] - k * cp0) <= \
                 2 * np.spacing(abs(k * cp0)):
             viol("k-initial-cp", f"k={k:.3g}:pass{n + 1}",
                  f"pass {n + 1} starts from contact point {ps['cp0']!r}, "
                  f"expected k x stored initial value = {k * cp0!r}")
             break
     stored = fk["params_initial"]["contact_point"].value
-    if abs(stored - cp0) > 2 * np.spacing(abs(cp0)):
+    if not abs(stored - cp0) <= 2 * np.spacing(abs(cp0)):
         viol("k-initial-cp", f"k={k:.3g}:stored", "the stored initial "
              f"contact point is {stored!r} after the fit, set to {cp0!r}")
     if len(pk) != len(p1):
@@ -160,15 +240,15 @@ def case_fn(case):
     q1, qk = f1["params_fitted"], fk["params_fitted"]
     dcp = abs(qk["contact_point"].value - q1["contact_point"].value) / depth
     db = abs(qk["baseline"].value - q1["baseline"].value) / Fmax
-    if dcp > tol:
+    if not dcp <= tol:
         viol("k-invariance", f"k={k:.3g}:contact_point", f"contact point "
              f"{qk['contact_point'].value!r} vs k=1 "
              f"{q1['contact_point'].value!r} (|d|/depth = {dcp:.2e})")
-    if db > tol:
+    if not db <= tol:
         viol("k-invariance", f"k={k:.3g}:baseline", f"|d baseline|/F_max = "
              f"{db:.2e}")
     rE = qk["E"].value / (q1["E"].value * k ** (-p))
-    if abs(rE - 1) > max(tol * 30, 1e-8):
+    if not abs(rE - 1) <= max(tol * 30, 1e-8):
         viol("k-scaling", f"k={k:.3g}", f"E_k / (E_1 k^-{p}) = {rE!r}")
     r1 = np.asarray(i1["fit range"]).astype(bool)
     rk = np.asarray(ik["fit range"]).astype(bool)
@@ -205,7 +285,7 @@ def case_fn(case):
              "column differs")
     else:
         d = np.nanmax(np.abs(c1 - ck)) / Fmax
-        if d > tol * 10:
+        if not d <= tol * 10:
             viol("k-invariance", f"k={k:.3g}:fit", f"fit curve differs "
                  f"from k = 1 by {d:.2e} F_max")
     return out, ("compared", len(pk))
@@ -236,6 +316,14 @@ def cases(tier):
                                                "segment": seg, "mode": mode,
                                                "cp0": cp0, "k": k,
                                                "fixed": fx})
+    # no initial parameters given: the contact point is estimated
+    for mk in POWER:
+        for seg in (0, 1):
+            for k in KS:
+                for entry in ("fit_model", "get_initial_fit_parameters"):
+                    cs.append({"kind": "grid", "mode": "guessed", "model": mk,
+                               "segment": seg, "k": k, "entry": entry,
+                               "compare": k in (0.5, 0.6, 2.0)})
     if tier == "thorough":
         for f in ("fmt-jpk-fd_spot3-0192.jpk-force",
                   "fmt-jpk-fd_single_tilted-baseline-drift-mitotic_"
